@@ -82,6 +82,21 @@ func c01Programs(tier string) (well [][]refsem.Step, ill [][]refsem.Step) {
 		}
 		well = append(well, lvl...)
 	}
+	// edge-centred sweep, one step deeper than the full alphabet (programs already enumerated are skipped)
+	seen := map[string]bool{}
+	for _, p := range well {
+		seen[refsem.ProgName(p)] = true
+	}
+	edgeLen := 4
+	if tier == "thorough" {
+		edgeLen = 5
+	}
+	for _, p := range progenum.EdgePrograms(edgeLen) {
+		if !seen[refsem.ProgName(p)] {
+			seen[refsem.ProgName(p)] = true
+			well = append(well, p)
+		}
+	}
 	// ill-typed: also sequences that do not begin with a start
 	all := append(append([]refsem.Step{}, progenum.Starts()...), alpha...)
 	for _, a := range alpha {
